@@ -68,11 +68,11 @@ func Mutate(t *rapid.T, doc map[string]any) (kind string, depth int, ok bool) {
 	if len(slots) == 0 {
 		return "", 0, false
 	}
-	kind = rapid.SampledFrom(MutateKinds).Draw(t, "mutation")
+	kind = PickUniform(t, MutateKinds, "mutation")
 	// prefer deeper places: draw two candidates, keep the deeper one
 	pick := func(label string) slot {
-		a := slots[rapid.IntRange(0, len(slots)-1).Draw(t, label)]
-		b := slots[rapid.IntRange(0, len(slots)-1).Draw(t, label+"2")]
+		a := PickUniform(t, slots, label)
+		b := PickUniform(t, slots, label+"2")
 		if b.deep > a.deep {
 			return b
 		}
@@ -122,7 +122,7 @@ func Mutate(t *rapid.T, doc map[string]any) (kind string, depth int, ok bool) {
 		if len(strSlots) == 0 {
 			return kind, 0, false
 		}
-		c := strSlots[rapid.IntRange(0, len(strSlots)-1).Draw(t, "strslot")]
+		c := PickUniform(t, strSlots, "strslot")
 		if kind == "blank-string" {
 			c.set("")
 			return kind, c.deep, true
@@ -152,7 +152,7 @@ func Mutate(t *rapid.T, doc map[string]any) (kind string, depth int, ok bool) {
 		if len(typed) == 0 {
 			return kind, 0, false
 		}
-		c := typed[rapid.IntRange(0, len(typed)-1).Draw(t, "typedslot")]
+		c := PickUniform(t, typed, "typedslot")
 		m := c.get().(map[string]any)
 		var v any
 		switch rapid.IntRange(0, 6).Draw(t, "plantedkind") {
@@ -199,7 +199,7 @@ func Mutate(t *rapid.T, doc map[string]any) (kind string, depth int, ok bool) {
 		if len(numArrays) == 0 {
 			return kind, 0, false
 		}
-		c := numArrays[rapid.IntRange(0, len(numArrays)-1).Draw(t, "numarray")]
+		c := PickUniform(t, numArrays, "numarray")
 		a := c.get().([]any)
 		for _, e := range a {
 			if n, isNum := e.(json.Number); isNum {
@@ -223,8 +223,8 @@ func Mutate(t *rapid.T, doc map[string]any) (kind string, depth int, ok bool) {
 		if len(names) == 0 {
 			return kind, 0, false
 		}
-		a := names[rapid.IntRange(0, len(names)-1).Draw(t, "selfrefdef")]
-		b := names[rapid.IntRange(0, len(names)-1).Draw(t, "selfrefdef2")]
+		a := PickUniform(t, names, "selfrefdef")
+		b := PickUniform(t, names, "selfrefdef2")
 		if rapid.IntRange(0, 2).Draw(t, "escapedselfref") == 0 {
 			// a definition whose name needs JSON-pointer escaping, inheriting from itself
 			nm := rapid.SampledFrom([]string{"a/b", "a~b", "x/y/z", "~"}).Draw(t, "escapedname")
@@ -257,7 +257,7 @@ func Mutate(t *rapid.T, doc map[string]any) (kind string, depth int, ok bool) {
 		if len(nameSlots) == 0 {
 			return kind, 0, false
 		}
-		c := nameSlots[rapid.IntRange(0, len(nameSlots)-1).Draw(t, "nameslot")]
+		c := PickUniform(t, nameSlots, "nameslot")
 		c.set(rapid.SampledFrom(HostileKeys).Draw(t, "hostilename"))
 		return kind, c.deep, true
 	case "duplicate":
@@ -271,9 +271,9 @@ func Mutate(t *rapid.T, doc map[string]any) (kind string, depth int, ok bool) {
 		if len(arrSlots) == 0 {
 			return kind, 0, false
 		}
-		c := arrSlots[rapid.IntRange(0, len(arrSlots)-1).Draw(t, "arrslot")]
+		c := PickUniform(t, arrSlots, "arrslot")
 		a := c.get().([]any)
-		el := Clone(a[rapid.IntRange(0, len(a)-1).Draw(t, "dupelem")])
+		el := Clone(PickUniform(t, a, "dupelem"))
 		if n, isNum := el.(json.Number); isNum && rapid.Bool().Draw(t, "respell") {
 			// the same number under another spelling (1 and 1.0 are equal JSON values)
 			if !strings.ContainsAny(string(n), ".eE") {
@@ -295,7 +295,7 @@ func Mutate(t *rapid.T, doc map[string]any) (kind string, depth int, ok bool) {
 			if len(refSlots) == 0 {
 				return kind, 0, false
 			}
-			c := refSlots[rapid.IntRange(0, len(refSlots)-1).Draw(t, "refslot")]
+			c := PickUniform(t, refSlots, "refslot")
 			c.obj[rapid.SampledFrom([]string{"description", "type", "in", "name", "required", "x-sibling"}).Draw(t, "sibling")] = rapid.SampledFrom([]any{"string", "sibling", true}).Draw(t, "siblingval")
 			return kind, c.deep, true
 		}
@@ -308,7 +308,7 @@ func Mutate(t *rapid.T, doc map[string]any) (kind string, depth int, ok bool) {
 			s.set(map[string]any{"$ref": target})
 			return kind, s.deep, true
 		}
-		c := refSlots[rapid.IntRange(0, len(refSlots)-1).Draw(t, "refslot")]
+		c := PickUniform(t, refSlots, "refslot")
 		c.obj["$ref"] = target
 		return kind, c.deep, true
 	}
